@@ -511,14 +511,19 @@ class Ctx:
         if nlines == 0:
             raise Inconclusive("empty trace " + trace_path)
         r = self.tlc(module, cfg, workers=1, timeout=timeout, cwd=d, deque=deque, heap=heap)
-        m = re.search(r'<<"VERIF_VERDICT", "([^"]*)", (\d+), (\d+), (\d+)>>', r.out)
+        flat = re.sub(r"\s+", " ", r.out)
+        m = re.search(r'<< ?"VERIF_VERDICT", "([^"]*)", (\d+), (\d+), (\d+), "([^"]*)", (\d+), (\d+) ?>>', flat)
         if not m:
             raise Inconclusive("trace validation %s/%s produced no verdict (rc=%d):\n%s" % (module, cfg, r.rc, r.tail(40)))
         clause, line, consumed, length = m.group(1), int(m.group(2)), int(m.group(3)), int(m.group(4))
         if r.rc != 0 and not r.violated and clause == "none":
             raise Inconclusive("trace validation %s/%s failed rc=%d:\n%s" % (module, cfg, r.rc, r.tail(40)))
         res = {"accepted": clause == "none" and consumed == length, "clause": clause, "line": line,
-               "consumed": consumed, "length": length, "dir": d, "wall": r.wall}
+               "consumed": consumed, "length": length, "dir": d, "wall": r.wall,
+               "drift": m.group(5), "drift_line": int(m.group(6)), "drift_count": int(m.group(7))}
+        if res["drift_count"]:
+            print("DRIFT property=%s %s at trace line %d (%d lines drift)" % (self.prop, res["drift"], res["drift_line"], res["drift_count"]), flush=True)
+            self.cov["drift"] += res["drift_count"]
         if clause == "none" and consumed != length:
             # the monitor got stuck: an event it does not know -> machinery problem, never a verdict
             bad = open(dst).read().splitlines()[consumed] if consumed < nlines else "?"
